@@ -16,7 +16,7 @@ from lib.common import cps, uncps
 
 PROP = 'C15'
 LEVEL = 'proof'
-PROPS_MODULES = ['RTV.Props.C15']
+PROPS_MODULES = ['RTV.Props.C15', 'RTV.Props.C15Range']
 GEN = ['timexregex', 'timexenglish']
 REQUIRED_THEOREMS = ['weekday_resolve', 'duration_seconds', 'year_range', 'month_range', 'month_range_december',
                      'week_range', 'week_range_across_month', 'collapse_terminates', 'collapseDates_returns',
@@ -25,7 +25,15 @@ REQUIRED_THEOREMS = ['weekday_resolve', 'duration_seconds', 'year_range', 'month
                      'dates_matching_day_spec', 'evaluate_monthday_stage_sound', 'evaluate_timerange_stage_sound',
                      'evaluate_sound', 'evaluate_dateOnly_eq', 'evaluate_complete_monthday',
                      'stages234_sound', 'evaluate_sound_durations', 'evaluate_complete_hours',
-                     'monthday_stage_never_raises', 'evaluate_sound_grammar']
+                     'monthday_stage_never_raises', 'evaluate_sound_grammar',
+                     # RTV.Props.C15Range (audit item 18): the ranges a constraint denotes, on calendar functions;
+                     # fractional durations; collapse never hangs; time-of-day candidates
+                     'daterange_year', 'daterange_month', 'daterange_days', 'daterange_weeks', 'timerange_of_start_dur',
+                     'timerange_hours', 'timerange_minutes', 'timerange_parts_of_day', 'range_denotation_examples',
+                     'range_denotation_observations', 'duration_seconds_frac', 'duration_seconds_frac_examples',
+                     'collapseDates_never_hangs', 'collapseTimes_never_hangs', 'evaluate_collapse_never_hangs',
+                     'collapse_proper', 'noDate_time_forms', 'evaluate_time_candidates_no_result',
+                     'evaluate_time_candidates_sound', 'evaluate_time_candidate_examples']
 RULE = ('resolve: weekday TIMEXes XXXX-WXX-0..9 (with and without a time) x every day 1950-01-01..2090-12-31 in '
         'thorough (quick: every day of 2019-2021, the first/last ten days of every year, seeded days), XXXX-MM / '
         'XXXX-MM-DD x one reference per year + seeded, YYYY / YYYY-MM (all 12) / YYYY-Www (00-54) / durations (all '
@@ -320,6 +328,56 @@ def time_constraints(ctx, wide=False):
     return out
 
 
+def denotation_cases(ctx):
+    """constraint strings with the range they DENOTE, computed here with `datetime` (independent of the package and of the
+    model): years, year-months incl. December, (date,_,PnD), (date,_,PnW), (Thh[:mm],_,PTnH / PTnM), parts of day.
+    Mirrors Lean daterange_year / _month / _days / _weeks, timerange_hours / _minutes / _parts_of_day."""
+    r = ctx.rng('denotation')
+    out = []
+    years = [1, 2, 1999, 2000, 2019, 2020, 2021, 2024, 2100, 9998] + [r.randint(1, 9998) for _ in range(20 if ctx.thorough else 6)]
+    for y in years:
+        out.append(('daterange', '%04d' % y, D(y, 1, 1).toordinal(), D(y + 1, 1, 1).toordinal()))
+        for m in range(1, 13):
+            hi = D(y + (m == 12), m % 12 + 1, 1)
+            out.append(('daterange', '%04d-%02d' % (y, m), D(y, m, 1).toordinal(), hi.toordinal()))
+    for _ in range(400 if ctx.thorough else 80):
+        s = datetime.date.fromordinal(r.randint(1, 3652059 - 4000))
+        n = r.choice([1, 2, 6, 7, 28, 29, 30, 31, 365, 366, 1000, r.randint(1, 3000)])
+        out.append(('daterange', '(%s,x,P%dD)' % (iso(s), n), s.toordinal(), s.toordinal() + n))
+        w = r.choice([1, 2, 4, 52, r.randint(1, 500)])
+        out.append(('daterange', '(%s,x,P%dW)' % (iso(s), w), s.toordinal(), s.toordinal() + 7 * w))
+    for h in (0, 8, 12, 20, 23):
+        for mi in (0, 30, 59):
+            for n in (1, 4, 10, 24):
+                t0 = h * 3600 + mi * 60
+                tt = 'T%02d' % h + (':%02d' % mi if mi else '')
+                out.append(('timerange', '(%s,x,PT%dH)' % (tt, n), t0 * 1000, (t0 + 3600 * n) * 1000))
+                out.append(('timerange', '(%s,x,PT%dM)' % (tt, n * 15), t0 * 1000, (t0 + 900 * n) * 1000))
+    for p, a, b in (('TMO', 8, 12), ('TAF', 12, 16), ('TEV', 16, 20), ('TNI', 20, 30), ('TDT', 8, 18)):
+        out.append(('timerange', p, a * 3600000, b * 3600000))
+    return out
+
+
+def check_range_denotation(ctx):
+    """daterange_from_timex / timerange_from_timex of the WORKING TREE against the range the constraint denotes (calendar
+    arithmetic of `datetime`, nothing from the package or the model) — the independent characterisation of the range spec
+    that evaluate_sound* is stated against."""
+    cases = denotation_cases(ctx)
+    res = tc.run_ops([(k, s) for k, s, _, _ in cases])
+    for (k, s, lo, hi), a in zip(cases, res):
+        ctx.count('denotation:' + k)
+        ctx.nontriv(('den', k, s))
+        want = '%d:%d' % (lo, hi)
+        if a != want:
+            kind = 'parts-of-day' if not s.startswith('(') and k == 'timerange' else \
+                ('year' if re.match(r'^\d{4}$', s) else 'month' if re.match(r'^\d{4}-\d\d$', s) else
+                 'span-' + s.rstrip(')')[-1])
+            tc.report(ctx, 'property', 'range-denotation:%s:%s' % (k, kind),
+                      '%s_from_timex(Timex(%r)) is %s, the constraint denotes %s' % (k, s, a, want),
+                      failing_input={'op': 'TimexHelpers.%s_from_timex(Timex(s)) as ordinals / milliseconds' % k, 'string': s,
+                                     'observed': a, 'expected': want}, property_fails=True)
+
+
 def constraint_pool(ctx, wide=False):
     return [c.text for c in date_constraints(ctx, wide) + time_constraints(ctx, wide)] + \
            ['T10', '2020-01-15T10', '2020-01-15', 'XXXX-WXX-3', 'P1D', 'PRESENT_REF', '']
@@ -582,6 +640,7 @@ def _correspond(ctx):
             tc.report(ctx, 'correspondence', 'unit-' + o[0], '%r: implementation %s ; model %s' % (o, a, b),
                        failing_input={'op': o[0], 'args': o[1:], 'implementation': a, 'model': b})
     ctx.sample({'op': ops[len(ops) // 2], 'implementation': impl[len(ops) // 2]})
+    check_range_denotation(ctx)
 
     # ------------------------------------------------ evaluate
     cases = evaluate_cases(ctx) + duration_cases(ctx)
